@@ -13,6 +13,8 @@
 //!   one ty=<name> fin=ret|panic op=join|drop|keep pre=<us> hdelay=<us> gate=0|1 wake=0|1
 //!   sched ops=<op;op..> steps=<tok,tok..>     op: s<p>:<ty>:<r|p>  j<p>  d<p>
 //!                                             tok: h<id>  t<p>.<id>  w  h><id|p>  t<p>><id>
+//!   explore ops=<op;op..> max=<n>           DFS over owner/thread interleavings at the flag accesses
+//!   race n= seed= spin=<iterations> drop=<pct>   quiet stress of the drop/finish race
 //!   mark <text>
 #![no_std]
 #![no_main]
@@ -55,6 +57,10 @@ static EFFECT: Racy<[u64; MAXK]> = Racy::new([0; MAXK]);
 static CEND: [AtomicBool; MAXK] = [const { AtomicBool::new(false) }; MAXK];
 static HRET: [AtomicBool; MAXK] = [const { AtomicBool::new(false) }; MAXK];
 static GATE: AtomicU32 = AtomicU32::new(1);
+static STARTED: [AtomicBool; MAXK] = [const { AtomicBool::new(false) }; MAXK];
+/// race batches: no per-thread events at all (the race window must stay narrow)
+static QUIET: AtomicBool = AtomicBool::new(false);
+static RACE_BAD: AtomicU32 = AtomicU32::new(0);
 
 #[inline]
 fn tag(k: u32) -> u64 {
@@ -142,6 +148,9 @@ struct Dv {
 }
 impl Drop for Dv {
     fn drop(&mut self) {
+        if QUIET.load(Ordering::Relaxed) {
+            return;
+        }
         Ev::new("vdrop").u("k", self.k as u64).b("by_probe", self.by_probe).emit();
     }
 }
@@ -185,6 +194,18 @@ struct ThreadPlan {
 }
 
 fn body<T: Tagged>(p: ThreadPlan) -> T {
+    if QUIET.load(Ordering::Relaxed) {
+        let k = p.k as usize % MAXK;
+        RUNS[k].fetch_add(1, Ordering::SeqCst);
+        unsafe {
+            EFFECT.get()[k] = tag(p.k);
+        }
+        STARTED[k].store(true, Ordering::SeqCst);
+        if p.panic {
+            panic!("probe closure panics on purpose");
+        }
+        return T::make(p.k);
+    }
     sched::t_register(p.party as usize);
     let k = p.k;
     let n = RUNS[k as usize % MAXK].fetch_add(1, Ordering::SeqCst);
@@ -269,6 +290,71 @@ fn drop_t<T: Tagged>(k: u32, h: JoinHandle<T>) {
     Ev::new("drop_ret").u("k", k as u64).emit();
 }
 
+fn race_spawn<T: Tagged>(p: ThreadPlan) -> Option<JoinHandle<T>> {
+    tiny_std::thread::spawn(move || body::<T>(p)).ok()
+}
+
+fn race_finish<T: Tagged>(k: u32, h: JoinHandle<T>, join: bool) {
+    if join {
+        let eff_ok = |k: u32| unsafe { core::ptr::read_volatile(&EFFECT.get()[k as usize % MAXK]) } == tag(k);
+        match h.join() {
+            Some(v) => {
+                if !v.ok(k) || !eff_ok(k) {
+                    RACE_BAD.fetch_add(1, Ordering::SeqCst);
+                }
+            }
+            None => {
+                RACE_BAD.fetch_add(1, Ordering::SeqCst);
+            }
+        }
+    } else {
+        drop(h);
+    }
+}
+
+fn h_race(n: u32, seed: u64, spin: u32, drop_pct: u32) {
+    let mut rng = Rng(seed | 1);
+    let mut spawned = 0u32;
+    for i in 0..n {
+        let k = NEXT_K.fetch_add(1, Ordering::SeqCst);
+        STARTED[k as usize % MAXK].store(false, Ordering::SeqCst);
+        let plan = ThreadPlan { k, party: 0, panic: false, pre: 0, gate: false };
+        let join = rng.below(100) >= drop_pct;
+        let wait = spin_wait_started;
+        macro_rules! go {
+            ($t:ty) => {{
+                if let Some(h) = race_spawn::<$t>(plan) {
+                    spawned += 1;
+                    wait(k, rng.below(spin + 1));
+                    race_finish::<$t>(k, h, join);
+                }
+            }};
+        }
+        match i % 4 {
+            0 => go!(u8),
+            1 => go!(Vec<u8>),
+            2 => go!(Dv),
+            _ => go!(Z),
+        }
+    }
+    Ev::new("race_done").u("n", spawned as u64).u("bad", RACE_BAD.load(Ordering::SeqCst) as u64).emit();
+}
+
+fn spin_wait_started(k: u32, extra: u32) {
+    let t0 = sys::now_us();
+    let mut n = 0u32;
+    while !STARTED[k as usize % MAXK].load(Ordering::SeqCst) {
+        n += 1;
+        if n % 4096 == 0 && sys::now_us() - t0 > 1_000_000 {
+            break;
+        }
+        core::hint::spin_loop();
+    }
+    for _ in 0..extra {
+        core::hint::spin_loop();
+    }
+}
+
 fn spawn_any(ty: u32, p: ThreadPlan) -> Option<AnyH> {
     match ty {
         0 => spawn_t::<Z>(p).map(AnyH::Z),
@@ -321,6 +407,7 @@ enum Cmd {
     Batch { n: u32, seed: u64, conc: u32, panic_pct: u32, drop_pct: u32, types: u32 },
     One { ty: u32, panic: bool, op: u8, pre: u32, hdelay: u32, gate: bool },
     Prog { ops: [HOp; 8], n: usize },
+    Race { n: u32, seed: u64, spin: u32, drop_pct: u32 },
 }
 
 static CMD: Racy<Cmd> = Racy::new(Cmd::None);
@@ -468,6 +555,7 @@ fn h_main() {
             Cmd::Batch { n, seed, conc, panic_pct, drop_pct, types } => h_batch(n, seed, conc, panic_pct, drop_pct, types),
             Cmd::One { ty, panic, op, pre, hdelay, gate } => h_one(ty, panic, op, pre, hdelay, gate),
             Cmd::Prog { ops, n } => h_prog(&ops[..n]),
+            Cmd::Race { n, seed, spin, drop_pct } => h_race(n, seed, spin, drop_pct),
         }
         sched::PARTIES[0].idle.store(true, Ordering::SeqCst);
         DONE_SEQ.store(seen, Ordering::SeqCst);
@@ -649,6 +737,36 @@ fn cmd_batch(line: &str) {
     }
 }
 
+fn cmd_race(line: &str) {
+    QUIET.store(true, Ordering::SeqCst);
+    let s = send(Cmd::Race {
+        n: num(line, "n", 1000) as u32,
+        seed: num(line, "seed", 1),
+        spin: num(line, "spin", 100) as u32,
+        drop_pct: num(line, "drop", 85) as u32,
+    });
+    // quiet threads produce no events: the watchdog cannot be progress based here
+    let t0 = sys::now_us();
+    let budget = 60_000_000u64;
+    let mut ok = false;
+    while sys::now_us() - t0 < budget {
+        if DONE_SEQ.load(Ordering::SeqCst) == s {
+            ok = true;
+            break;
+        }
+        sys::sleep_us(500);
+    }
+    if !ok {
+        timed_out("race");
+    }
+    // let the last threads leave before events are switched on again
+    let t1 = sys::now_us();
+    while sys::thread_count() > 2 && sys::now_us() - t1 < 20_000_000 {
+        sys::sleep_us(200);
+    }
+    QUIET.store(false, Ordering::SeqCst);
+}
+
 fn q_code(q: sched::Q) -> u64 {
     match q {
         sched::Q::At(id) => id as u64,
@@ -659,7 +777,7 @@ fn q_code(q: sched::Q) -> u64 {
     }
 }
 
-fn cmd_sched(line: &str) {
+fn parse_ops(line: &str) -> ([HOp; 8], usize) {
     let mut ops = [HOp::Join { party: 0 }; 8];
     let mut nops = 0;
     for o in arg(line, "ops").unwrap_or("").split(';') {
@@ -681,6 +799,11 @@ fn cmd_sched(line: &str) {
         };
         nops += 1;
     }
+    (ops, nops)
+}
+
+fn cmd_sched(line: &str) {
+    let (ops, nops) = parse_ops(line);
     sched::reset();
     let base = NEXT_K.fetch_add(4, Ordering::SeqCst);
     CUR_K.store(base, Ordering::SeqCst);
@@ -838,6 +961,113 @@ fn cmd_sched(line: &str) {
     }
 }
 
+/// Systematic exploration of the REAL code around the hand-shake flag: stateless depth-first search
+/// over the interleavings of the owner and the thread(s) at the yield points {closure start (9),
+/// owner operation start (60), every access of the hand-shake flag (45, through the AtomicBool shim
+/// of tiny_std::verif_thread)}; everything else runs through.  One execution per schedule, each
+/// between its own baseline / quiesce so that it is judged like any other run.
+fn cmd_explore(line: &str) {
+    let (ops, nops) = parse_ops(line);
+    let max_exec = num(line, "max", 64) as usize;
+    let saved = sched::PASS_MASK.load(Ordering::SeqCst);
+    sched::PASS_MASK.store(!((1u64 << sched::T_START) | (1u64 << sched::H_OP) | (1u64 << tiny_std::verif_thread::FLAG_ACCESS)), Ordering::SeqCst);
+    const D: usize = 48;
+    let mut prefix = [0u8; D];
+    let mut plen = 0usize;
+    let mut nexec = 0usize;
+    let tmo = 5_000_000u64;
+    loop {
+        BASE_SERIAL.store(calloc::TABLE.serial.load(Ordering::SeqCst) - 1, Ordering::SeqCst);
+        snapshot("baseline");
+        sched::reset();
+        let base = NEXT_K.fetch_add(4, Ordering::SeqCst);
+        CUR_K.store(base, Ordering::SeqCst);
+        Ev::new("sched_begin").u("base", base as u64).u("explore", nexec as u64).emit();
+        sched::ACTIVE.store(true, Ordering::SeqCst);
+        let s = send(Cmd::Prog { ops, n: nops });
+        let mut chosen = [0u8; D];
+        let mut nopts = [0u8; D];
+        let mut nd = 0usize;
+        let mut expected = [false; sched::NPARTY];
+        expected[0] = true;
+        let mut cur_op: isize = -1;
+        let mut steps = 0;
+        loop {
+            let mut stuck = false;
+            for (j, exp) in expected.iter().enumerate() {
+                if *exp && sched::wait_quiescent(j, tmo) == sched::Q::Running {
+                    stuck = true;
+                }
+            }
+            let mut en = [0usize; sched::NPARTY];
+            let mut at = [0u32; sched::NPARTY];
+            let mut ne = 0;
+            for (j, exp) in expected.iter().enumerate() {
+                if *exp {
+                    if let sched::Q::At(id) = sched::state_of(j) {
+                        en[ne] = j;
+                        at[ne] = id;
+                        ne += 1;
+                    }
+                }
+            }
+            if ne == 0 || stuck || steps > 200 {
+                break;
+            }
+            let idx = if ne > 1 && nd < D {
+                let c = if nd < plen { (prefix[nd] as usize).min(ne - 1) } else { 0 };
+                chosen[nd] = c as u8;
+                nopts[nd] = ne as u8;
+                nd += 1;
+                c
+            } else {
+                0
+            };
+            let (party, id) = (en[idx], at[idx]);
+            if party == 0 && id == sched::H_OP {
+                cur_op += 1;
+                if let Some(HOp::Spawn { party: p, .. }) = ops.get(cur_op.max(0) as usize) {
+                    expected[*p as usize] = true;
+                }
+            }
+            Ev::new("step").u("i", steps as u64).u("party", party as u64).u("at", id as u64).u("opts", ne as u64).emit();
+            sched::grant(party);
+            let _ = sched::wait_quiescent(party, tmo);
+            steps += 1;
+        }
+        sched::release_all();
+        let done = wait_done(s, WATCHDOG_MS.load(Ordering::SeqCst));
+        let mut ch = [0u64; D];
+        for i in 0..nd {
+            ch[i] = chosen[i] as u64;
+        }
+        Ev::new("sched_end").b("diverged", false).b("h_done", done).u("explore", nexec as u64).list("choices", &ch[..nd]).emit();
+        if !done {
+            timed_out("explore");
+        }
+        quiesce();
+        nexec += 1;
+        // next schedule in depth-first order
+        let mut i = nd;
+        let mut found = false;
+        while i > 0 {
+            i -= 1;
+            if chosen[i] + 1 < nopts[i] {
+                prefix[..i].copy_from_slice(&chosen[..i]);
+                prefix[i] = chosen[i] + 1;
+                plen = i + 1;
+                found = true;
+                break;
+            }
+        }
+        if !found || nexec >= max_exec {
+            Ev::new("explore_end").u("executions", nexec as u64).b("complete", !found).emit();
+            break;
+        }
+    }
+    sched::PASS_MASK.store(saved, Ordering::SeqCst);
+}
+
 #[no_mangle]
 pub fn main() -> i32 {
     let mut args = tiny_std::env::args();
@@ -924,6 +1154,8 @@ pub fn main() -> i32 {
             "batch" => cmd_batch(line),
             "one" => cmd_one(line),
             "sched" => cmd_sched(line),
+            "explore" => cmd_explore(line),
+            "race" => cmd_race(line),
             "mark" => Ev::new("mark").s("text", line).emit(),
             _ => Ev::new("badcmd").s("text", line).emit(),
         }
